@@ -6,7 +6,7 @@ from props import wire
 TRUSTED = BASE_TRUSTED + ["wrapper theorems treat ed25519-zebra / ed25519-dalek as abstract primitives (Section parameters); the wrapper tie answers them by direct library calls through the harness",
                           "Model/Ed25519.v is an executable RFC 8032 model (Gallina SHA-512 + edwards25519 arithmetic + both libraries' verification rules) tied to the libraries by correspondence: it removes the oracle for key derivation, signing and verification decisions on the sampled cases, but the curve's group law is not proved",
                           "rejection of bit-flipped messages/signatures/keys is Ed25519's unforgeability (computational): observed on the implementation, not a theorem"]
-RULE = ("keys from scripted RNG (both frontends, same seed bytes), messages of length 0, 1, 31..65 and 4 KiB (64 KiB thorough): "
+RULE = ("keys from scripted RNG (both frontends, same seed bytes), messages of length 0, 1, 31..65, 4 KiB, 32 KiB (+1), 64 KiB (+1), 200 kB (thorough up to 4 MiB): "
         "sign / verify / (de)serialize / to_string / from_string of both frontends compared with the Gallina wrapper+base64 model "
         "whose primitives are answered by direct library calls; cross-frontend matrix (same signatures, mutual acceptance); every "
         "single-bit flip of the signature (512) and public key (256) and of short messages must fail to verify; malformed byte "
@@ -37,7 +37,9 @@ def run(env):
     for i, (sk, pk) in enumerate(keys):
         if rp[2 * i] != pk or rp[2 * i + 1] != pk:
             env.violation("public key of the wrapper differs from the library's", {"kind": "battery", "case": {"sk": sk}})
-    msgs = [b"", b"\x00", b"ok"] + [r.randbytes(n) for n in (31, 32, 33, 63, 64, 65)] + [r.randbytes(4096 if env.quick else 65536)]
+    # message lengths include the sizes at which a frontend might switch to chunked / pre-hashed signing
+    big_lens = (4096, 32768, 32769, 65536, 65537, 200000) if env.quick else (4095, 4096, 4097, 16384, 32767, 32768, 32769, 65535, 65536, 65537, 131073, 1 << 20, (1 << 22) + 1)
+    msgs = [b"", b"\x00", b"ok"] + [r.randbytes(n) for n in (31, 32, 33, 63, 64, 65)] + [r.randbytes(n) for n in big_lens]
     st = []
     for sk, pk in keys[: (3 if env.quick else len(keys))]:
         for m in msgs:
@@ -57,6 +59,13 @@ def run(env):
                 items.append((c, D, "sig_sign", [sk, m, [[sk, True]], raw], s_))
         for fe in "zd":
             vt.append({"ctx": "S", "op": "verify", "args": [fe, c["_pk"], sz, m], "_want": True, "tag": "verify-cross"})
+        # a signature on a long message is not a signature on its digest (no silent pre-hashing)
+        if len(m) > 2 * 1000 + 2:
+            import hashlib as _h
+            mb = bytes.fromhex(m[2:])
+            for fe in "zd":
+                for dg in (_h.sha512(mb).digest(), _h.sha256(mb).digest(), mb[:64]):
+                    vt.append({"ctx": "S", "op": "verify", "args": [fe, c["_pk"], sz, hexb(dg)], "_want": False, "tag": "verify-digest-of-message"})
         # another key must not verify
         other = [k for k in keys if k[1] != c["_pk"]][0][1]
         for fe in "zd":
